@@ -131,6 +131,11 @@ def run(facts, rep, ctx):
         else:
             rep.violation(R3, b.name, "threshold", "references are emitted for lengths below 3 (threshold %s): the 2-byte form's high nibble would collide with the form indicators 0/1" % sorted(thr), where)
     sub_guards(facts, rep, R4, b)
+    R6 = rep.rule("R09.6", "back-references reach only into data already produced: search contract shared with C10-R10.3", floor=5)
+    import c10
+    sb = facts.body(enc.search["callee"])
+    if sb is not None:
+        c10.search_contract(facts, rep, R6, sb)
 
 
 def check_header_wrapped(rep, R1, enc, where):
